@@ -2,6 +2,7 @@
 C03 instantiated with the transcribed package decoders (`Codec.ops`, Model/Codec/Pkg.lean).
 -/
 import Dblib.Props.C03.Abstract
+import Dblib.Props.C03.History
 import Dblib.Props.C02.Concrete
 
 namespace Dblib.Props.C03
@@ -42,5 +43,25 @@ theorem c03_concrete_synth_final : Codec.ops.isDoneFinal Codec.ops.doneFinal = t
 /-- non-vacuity: a response ending in DONE(MORE) gets exactly one synthetic DONE(FINAL) -/
 example : delivered (synthDone Codec.ops (some (.done "done" ⟨1, 0, 5⟩))) = [.done "done" ⟨0, 0, 0⟩] := by rfl
 example : delivered (synthDone Codec.ops (some (.done "done" ⟨0, 0, 5⟩))) = [] := by rfl
+
+/-- the transcribed package family meets the assumptions of the history theorems -/
+theorem c03_concrete_family_ok : FamilyOK Codec.ops := by
+  constructor
+  · intro p h
+    cases p <;> simp_all [Codec.ops, special]
+  · rfl
+
+/-- histories of real packages, consumer side: reading `k` well-formed responses to their final DONE
+leaves exactly what the remaining responses delivered -/
+theorem c03_concrete_history_drained (k : Nat) (rs : List (Resp Pkg))
+    (hwf : ∀ r ∈ rs, FinalOnlyLast Codec.ops r.pkgs) (hk : k ≤ rs.length) :
+    drainRounds (consOf Codec.ops) k (rs.flatMap (respDelivered Codec.ops)) =
+      (rs.drop k).flatMap (respDelivered Codec.ops) :=
+  c03_history_drained Codec.ops c03_concrete_family_ok k rs hwf hk
+
+/-- non-vacuity: EED, DONE(MORE), MSG and no final DONE is a well-formed response; it reaches the
+consumer as a round closed by the library's DONE -/
+example : FinalOnlyLast Codec.ops [.done "done" ⟨1, 0, 5⟩, .msg ⟨1, 7⟩] := by
+  simp [FinalOnlyLast, Codec.ops]
 
 end Dblib.Props.C03
